@@ -139,6 +139,10 @@ def leaf_for_sample(rng, typ):
             return [rng.randint(-9, 9) for _ in range(rng.randint(2, 4))]
         return [_text(rng) for _ in range(rng.randint(2, 3))]        # a list of strings stored whole
     if typ == "mat":
+        if rng.random() < 0.3:
+            # a table of names: a string array of two dimensions (stored whole)
+            r, c = rng.randint(1, 3), rng.randint(1, 3)
+            return [[_text(rng) for _ in range(c)] for _ in range(r)]
         return _array(rng, (rng.randint(1, 3), rng.randint(1, 4)))
     raise md.DriverError(typ)
 
